@@ -1,5 +1,169 @@
 package main
 
-func cmdSeq(args []string) { fail("seq: not built yet") }
+import (
+	"encoding/json"
+	"flag"
+	"fmt"
+	"os"
+	"sort"
+	"time"
 
-func replaySeq(rf *ReplayFile) { fail("seq replay: not built yet") }
+	"verif/vsched"
+)
+
+// SeqOut is the JSON result of one sequential bounded-exhaustive check (one shard).
+type SeqOut struct {
+	Check               string           `json:"check"`
+	Tier                string           `json:"tier"`
+	Shard               string           `json:"shard"`
+	Evaluations         int64            `json:"evaluations"`
+	DistinctNontrivial  int64            `json:"distinct_nontrivial"`
+	States              int64            `json:"states"`
+	Transitions         int64            `json:"transitions"`
+	Exhaustive          bool             `json:"exhaustive"`
+	ExcludedUnspecified int64            `json:"excluded_unspecified"`
+	Rule                string           `json:"rule"`
+	Samples             []string         `json:"samples"`
+	Violations          []SeqViolation   `json:"violations"`
+	Extra               map[string]int64 `json:"extra"`
+	WallS               float64          `json:"wall_s"`
+}
+
+type SeqViolation struct {
+	Desc  string `json:"desc"`
+	Input string `json:"input"`
+}
+
+// seqCtx is handed to a check.
+type seqCtx struct {
+	out      *SeqOut
+	shard    int
+	nshards  int
+	thorough bool
+	seen     map[uint64]struct{}
+	maxViol  int
+	stop     bool
+	counter  int64
+	until    time.Time
+}
+
+// Mine reports whether case number i belongs to this shard.
+func (c *seqCtx) Mine() bool {
+	i := c.counter
+	c.counter++
+	return int(i%int64(c.nshards)) == c.shard
+}
+
+// Eval counts one evaluation; key identifies the (input, outcome class) pair for distinct counting
+// (empty key: trivial, not counted as distinct).
+func (c *seqCtx) Eval(key string) {
+	c.out.Evaluations++
+	if key != "" {
+		h := vsched.HashString(key)
+		if _, ok := c.seen[h]; !ok {
+			c.seen[h] = struct{}{}
+			c.out.DistinctNontrivial++
+		}
+	}
+}
+
+func (c *seqCtx) EvalH(h uint64) {
+	c.out.Evaluations++
+	if _, ok := c.seen[h]; !ok {
+		c.seen[h] = struct{}{}
+		c.out.DistinctNontrivial++
+	}
+}
+
+func (c *seqCtx) Sample(s string) {
+	if len(c.out.Samples) < 8 {
+		c.out.Samples = append(c.out.Samples, s)
+	}
+}
+
+func (c *seqCtx) Extra(k string, n int64) { c.out.Extra[k] += n }
+
+func (c *seqCtx) Excluded() { c.out.ExcludedUnspecified++ }
+
+// Fail records a violation; input must be enough for replaySeq to re-run the case.
+func (c *seqCtx) Fail(prop, desc, input string) {
+	if len(c.out.Violations) < c.maxViol {
+		c.out.Violations = append(c.out.Violations, SeqViolation{Desc: prop + ": " + desc, Input: input})
+	} else {
+		c.stop = true
+		c.out.Exhaustive = false
+	}
+}
+
+func (c *seqCtx) Stopped() bool {
+	if !c.stop && !c.until.IsZero() && c.out.Evaluations%1024 == 0 && time.Now().After(c.until) {
+		c.stop = true
+		c.out.Exhaustive = false
+	}
+	return c.stop
+}
+
+type seqCheck struct {
+	run    func(c *seqCtx)
+	replay func(input string) []string // returns violation descriptions for one input
+	rule   string
+}
+
+var seqChecks = map[string]*seqCheck{}
+
+func cmdSeq(args []string) {
+	fs := flag.NewFlagSet("seq", flag.ExitOnError)
+	name := fs.String("check", "", "check name")
+	tier := fs.String("tier", "quick", "quick|thorough")
+	shard := fs.String("shard", "0/1", "i/n")
+	out := fs.String("out", "", "output json")
+	maxviol := fs.Int("maxviol", 25, "violation cap")
+	timeout := fs.Duration("timeout", 0, "wall-clock cap")
+	fs.Parse(args)
+	ck := seqChecks[*name]
+	if ck == nil {
+		var names []string
+		for k := range seqChecks {
+			names = append(names, k)
+		}
+		sort.Strings(names)
+		fail("unknown seq check %q (have %v)", *name, names)
+	}
+	c := &seqCtx{out: &SeqOut{Check: *name, Tier: *tier, Shard: *shard, Exhaustive: true, Rule: ck.rule, Extra: map[string]int64{}},
+		thorough: *tier == "thorough", seen: map[uint64]struct{}{}, maxViol: *maxviol}
+	fmt.Sscanf(*shard, "%d/%d", &c.shard, &c.nshards)
+	if c.nshards == 0 {
+		c.nshards = 1
+	}
+	if *timeout > 0 {
+		c.until = time.Now().Add(*timeout)
+	}
+	t0 := time.Now()
+	ck.run(c)
+	c.out.WallS = time.Since(t0).Seconds()
+	data, _ := json.MarshalIndent(c.out, "", " ")
+	if *out != "" {
+		os.WriteFile(*out, data, 0o644)
+	} else {
+		fmt.Println(string(data))
+	}
+}
+
+func replaySeq(rf *ReplayFile) {
+	ck := seqChecks[rf.Check]
+	if ck == nil || ck.replay == nil {
+		fail("no replay for seq check %q", rf.Check)
+	}
+	fmt.Printf("check %s input %s\n", rf.Check, rf.Input)
+	v1 := ck.replay(rf.Input)
+	v2 := ck.replay(rf.Input)
+	if fmt.Sprint(v1) != fmt.Sprint(v2) {
+		fail("replay is not deterministic")
+	}
+	for _, d := range v1 {
+		fmt.Println("VIOLATED", d)
+	}
+	if len(v1) == 0 {
+		fmt.Println("no violation on this input")
+	}
+}
